@@ -87,11 +87,22 @@ def fold_temporaries(fn):
     folded = 0
     for _ in range(50):
         own = _own_nodes(fn)
-        all_names = [n for n in ast.walk(fn) if isinstance(n, ast.Name)]
-        stores, loads = {}, {}
-        for n in all_names:
-            (stores if isinstance(n.ctx, (ast.Store, ast.Del)) else loads).setdefault(n.id, []).append(n)
         own_ids = {id(n) for n in own}
+        stores, loads = {}, {}
+        captured = set()                       # names a nested scope reads without binding them itself (closure variables)
+        for n in own:
+            if isinstance(n, ast.Name):
+                (stores if isinstance(n.ctx, (ast.Store, ast.Del)) else loads).setdefault(n.id, []).append(n)
+            if isinstance(n, SCOPES):
+                inner_st = {x.id for x in ast.walk(n) if isinstance(x, ast.Name) and isinstance(x.ctx, (ast.Store, ast.Del))}
+                if isinstance(n, (ast.FunctionDef, ast.AsyncFunctionDef, ast.Lambda)):
+                    a_ = n.args
+                    inner_st |= {x.arg for x in a_.posonlyargs + a_.args + a_.kwonlyargs} | \
+                        ({a_.vararg.arg} if a_.vararg else set()) | ({a_.kwarg.arg} if a_.kwarg else set())
+                nl = {y for x in ast.walk(n) if isinstance(x, (ast.Nonlocal, ast.Global)) for y in x.names}
+                for x in ast.walk(n):
+                    if isinstance(x, ast.Name) and (x.id not in inner_st or x.id in nl):
+                        captured.add(x.id)
         declared = {x for n in ast.walk(fn) if isinstance(n, (ast.Global, ast.Nonlocal)) for x in n.names}
         params = {a.arg for a in fn.args.posonlyargs + fn.args.args + fn.args.kwonlyargs}
         if fn.args.vararg:
@@ -104,7 +115,8 @@ def fold_temporaries(fn):
                 if not (isinstance(st, ast.Assign) and len(st.targets) == 1 and isinstance(st.targets[0], ast.Name)):
                     continue
                 name = st.targets[0].id
-                if name in declared or name in params or len(stores.get(name, [])) != 1 or len(loads.get(name, [])) != 1:
+                if name in declared or name in params or name in captured or len(stores.get(name, [])) != 1 or \
+                        len(loads.get(name, [])) != 1:
                     continue
                 use = loads[name][0]
                 if id(use) not in own_ids:
@@ -161,9 +173,91 @@ def fold_temporaries(fn):
     return folded
 
 
-def canonicalise(tree):
-    """fold the single-use temporaries of every function of a module in place"""
+PURE_CALLS = {"len", "abs", "np.abs", "np.fabs", "fabs", "min", "max", "float", "int", "np.asarray", "np.isfinite", "np.isnan"}
+
+
+def _call_name(c):
+    f = c.func
+    parts = []
+    while isinstance(f, ast.Attribute):
+        parts.append(f.attr)
+        f = f.value
+    if isinstance(f, ast.Name):
+        parts.append(f.id)
+        return ".".join(reversed(parts))
+    return None
+
+
+def _order_free(e):
+    for x in ast.walk(e):
+        if isinstance(x, ast.Call) and _call_name(x) not in PURE_CALLS:
+            return False
+        if isinstance(x, (ast.Yield, ast.YieldFrom, ast.Await, ast.NamedExpr)):
+            return False
+    return True
+
+
+def _ends(block):
+    return bool(block) and isinstance(block[-1], (ast.Return, ast.Raise, ast.Continue, ast.Break))
+
+
+def orient_comparisons(tree):
+    """`a > b` -> `b < a`, `a >= b` -> `b <= a` (single comparisons whose operands can be evaluated in either order)"""
     n = 0
+    swap = {ast.Gt: ast.Lt, ast.GtE: ast.LtE}
+    for x in ast.walk(tree):
+        if isinstance(x, ast.Compare) and len(x.ops) == 1 and type(x.ops[0]) in swap and _order_free(x.left) and \
+                _order_free(x.comparators[0]):
+            x.left, x.comparators[0] = x.comparators[0], x.left
+            x.ops[0] = swap[type(x.ops[0])]()
+            n += 1
+    return n
+
+
+def normalise_branches(fn):
+    """positive tests, merged nested ifs, guard clauses:
+         if not c: A else: B            ->  if c: B else: A
+         if a: (if b: X)                ->  if a and b: X                 (no else on either)
+         if c: A(ends) else: B          ->  if c: A   followed by B       (A ends in return / raise / continue / break)"""
+    n = 0
+    for _ in range(30):
+        changed = False
+        for block in _blocks(fn):
+            for i, st in enumerate(block):
+                if not isinstance(st, ast.If):
+                    continue
+                if st.orelse and isinstance(st.test, ast.UnaryOp) and isinstance(st.test.op, ast.Not):
+                    st.test = st.test.operand
+                    st.body, st.orelse = st.orelse, st.body
+                    changed = True
+                if not st.orelse and len(st.body) == 1 and isinstance(st.body[0], ast.If) and not st.body[0].orelse:
+                    inner = st.body[0]
+                    a_vals = st.test.values if isinstance(st.test, ast.BoolOp) and isinstance(st.test.op, ast.And) else [st.test]
+                    b_vals = inner.test.values if isinstance(inner.test, ast.BoolOp) and isinstance(inner.test.op, ast.And) else [inner.test]
+                    st.test = ast.copy_location(ast.BoolOp(op=ast.And(), values=list(a_vals) + list(b_vals)), st.test)
+                    st.body = inner.body
+                    changed = True
+                if st.orelse and _ends(st.body):
+                    rest = st.orelse
+                    st.orelse = []
+                    block[i + 1:i + 1] = rest
+                    changed = True
+                    break
+                if st.orelse and _ends(st.orelse) and not _ends(st.body) and False:
+                    pass
+            if changed:
+                n += 1
+                break
+        if not changed:
+            break
+    return n
+
+
+def canonicalise(tree):
+    """canonical form of every function of a module, in place: comparisons oriented, branches normalised, single-use temporaries
+    folded into their use"""
+    n = orient_comparisons(tree)
     for fn in [x for x in ast.walk(tree) if isinstance(x, (ast.FunctionDef, ast.AsyncFunctionDef))]:
+        n += normalise_branches(fn)
         n += fold_temporaries(fn)
     return n
